@@ -139,25 +139,32 @@ def main():
         wall_cap = 840
         # panic at EVERY phase point:
         panic_cfgs = dedup(
-            cfgs(["exe"], [True], [4, 1], W3, P4) +                        # full product, fork
-            cfgs(["exe"], [False], [4, 1], W3, ["older"]) +                # no-fork: thinned
-            cfgs(["exe"], [False], [4, 1], ["default"], ["absent"]) +
-            cfgs(["so"], [True], [4, 1], ["default", "inplace"], P4) +
-            cfgs(["so"], [False], [4], ["default"], ["absent", "older"]))
+            cfgs(["exe"], [True], [4], W3, P4) +                           # full prior x mode
+            cfgs(["so"], [True], [4], ["default", "inplace"], P4) +
+            cfgs(["exe"], [False], [4], W3, ["older"]) +
+            cfgs(["exe"], [False], [4], ["default"], ["absent"]) +
+            cfgs(["so"], [False], [4], ["default"], ["absent", "older"]) +
+            cfgs(["exe"], [True], [1], ["default"], P4) +
+            cfgs(["exe"], [True], [1], ["inplace", "noinplace"], ["older"]) +
+            cfgs(["so"], [True], [1], ["default"], ["absent", "older"]) +
+            cfgs(["exe"], [False], [1], ["default"], ["older"]))
         panic_first_only = []
         natural_cfgs = cfgs(["exe", "so"], [True, False], [4, 1], W3, P4)  # full product
         unc_cfgs = cfgs(["exe"], [False, True], [4], ["default"], ["older"])
         unc_faults, unc_all_points = UNCATCHABLE, True
         strace_cfgs = cfgs(["exe", "so"], [False], [4], W3, ["absent", "older"]) + \
             cfgs(["exe"], [True], [4], ["default"], ["older"])
-        thinned = ("panic at every point: exe/fork = full prior x mode x threads product; "
-                   "exe/no-fork = prior 'older' x 3 modes x 2 threads + absent/default; so/fork = "
-                   "4 priors x {default, inplace} x 2 threads (--no-update-in-place is the "
-                   "default mode of shared objects); so/no-fork = threads 4, default mode, "
-                   "{absent, older}. Natural errors: full product. Uncatchable faults: every "
-                   "point x 5 faults, exe, threads 4, default mode, prior 'older', fork and "
-                   "no-fork. strace deviations: no-fork, threads 4, 3 modes x {absent, older}, "
-                   "both programs, + exe/fork/default/older.")
+        thinned = ("panic at every phase point in 35 of the 96 configurations: threads 4: "
+                   "exe/fork x 4 priors x 3 modes; so/fork x 4 priors x {default, inplace} "
+                   "(--no-update-in-place is the default mode of shared objects); exe/no-fork x "
+                   "older x 3 modes + absent/default; so/no-fork x default x {absent, older}. "
+                   "threads 1: exe/fork x default x 4 priors + older x {inplace, noinplace}; "
+                   "so/fork x default x {absent, older}; exe/no-fork/default/older. Natural "
+                   "errors: full product (96 configurations). Uncatchable faults: exe, threads "
+                   "4, default mode, prior 'older': no-fork = kill9 at every point + the other 4 "
+                   "at the first occurrence of every enter / explicit point; fork = kill9 at "
+                   "first occurrences. strace deviations: no-fork, threads 4, 3 modes x {absent, "
+                   "older}, both programs, + exe/fork/default/older.")
     else:
         wall_cap = 52
         # panic at the first occurrence of every enter / explicit point:
@@ -213,9 +220,13 @@ def main():
                     panics.append(dict(cfg, fault=(point, "panic")))
         for cfg in unc_cfgs:
             for point in info[fe.cfg_key(cfg)]["points"]:
-                if unc_all_points or fe.is_enter_first(point):
+                first = fe.is_enter_first(point)
+                # (in fork mode these runs exit 0 today - see C17 - so only first occurrences)
+                if (unc_all_points and not cfg["fork"]) or first:
                     for fault in unc_faults:
                         if fault in cal["unusable"]:
+                            continue
+                        if fault != "kill9" and (cfg["fork"] or not first):
                             continue
                         c = dict(cfg, fault=(point, fault))
                         if fault == "segv" and cal["segv_external"]:
@@ -228,7 +239,8 @@ def main():
             except fe.Machinery as ex:
                 chk.machinery(str(ex))
         plan = natural + st_cases + panics + unc
-        results, not_run = fe.run_plan(plan, wall_cap, t0, seed=chk.seed)
+        results, not_run = fe.run_plan(plan, wall_cap, t0, seed=chk.seed,
+                                       batch=1000 if chk.thorough else 200)
         # --- evaluate
         classes = collections.Counter()
         uncatchable = collections.defaultdict(collections.Counter)
@@ -303,7 +315,7 @@ def main():
             "fault_calibration": cal,
             "point_sets_stable": all(v["stable"] for v in info.values()),
             "configurations_whose_fault_free_link_fails": sorted(
-                "/".join(map(str, k)) for k, v in info.items() if v["baseline_fails"]),
+                fe.key_name(k) for k, v in info.items() if v["baseline_fails"]),
             "thinned": thinned,
             "excluded": "faults that fire in the fork-mode parent (parent-fault-excluded); runs "
                         "that exit 0 (antecedent false; in fork mode this includes every child "
